@@ -8,15 +8,15 @@ CLAIMS = {
  "C01": ("guard dominance + writer/reader agreement + taint over typed HIR", "5 C01",
          "rank()/rank_zero() clamp before rank_unchecked on every path; counter geometry and rel/set_rel agreement; tail bits never counted unmasked in rank constructors; rank_unchecked/rank_hinted count only whole words before the word of pos and that word under the low mask of pos % 64; count_ones (the cached num_ones) reads only the logical contents. The remaining per-word arithmetic of rank_unchecked is not decided."),
  "C02": ("guard dominance + sibling-skeleton and writer/reader agreement over typed HIR", "5 C02",
-         "select()/select_zero() bound checks; span encoding constants; Select9 and SelectAdapt* writer/reader addressing; sibling agreement of the four adaptive selectors; construction loops stay inside the counters (Select9 position loop bounded by the word count, SelectSmall inventory_begin closed by the inventory length); map() keeps the const parameters; the small selectors keep one inventory_begin slot per 2^32-bit superblock and never search blocks outside the superblock of the rank. The broadword search itself is not decided. Known limitation (DESIGN section 13): the sibling-skeleton rules also report a behaviour-preserving rewrite of only one of the hand-mirrored selector files when it changes that file's decision/arithmetic skeleton (5 of 227 refactors of the benign corpus)."),
+         "select()/select_zero() bound checks; span encoding constants; Select9 and SelectAdapt* writer/reader addressing; sibling agreement of the four adaptive selectors; construction loops stay inside the counters (Select9 position loop bounded by the word count, SelectSmall inventory_begin closed by the inventory length); map() keeps the const parameters; the small selectors keep one inventory_begin slot per 2^32-bit superblock and never search blocks outside the superblock of the rank. The broadword search itself is not decided. Known limitation (DESIGN section 13): the sibling-skeleton rules also report a behaviour-preserving rewrite of only one of the hand-mirrored selector files when it changes that file's decision/arithmetic skeleton (4 of 227 refactors of the benign corpus)."),
  "C03": ("guard dominance + split/merge agreement + float-to-shift taint over typed HIR", "5 C03",
-         "push validation, iterator start protocol, low/high split agreement between builders and readers, allocation formula, no float-derived shift amount. Select on the high bits is C02."),
+         "push validation, iterator start protocol, low/high split agreement between builders and readers, allocation formula, no float-derived shift amount. From<slice> hands the builder a bound that covers every value. Select on the high bits is C02."),
  "C04": ("guard dominance (existence and universe guards) over typed HIR", "5 C04",
-         "succ/pred existence guards and STRICT flags, universe guard before selecting a zero, strict/non-strict branch shape. The bucket scan arithmetic is not decided."),
+         "succ/pred existence guards and STRICT flags, universe guard before selecting a zero, strict/non-strict branch shape. (also: the bound of From<slice> covers every value; lower-bit masks are computed in usize.) The bucket scan arithmetic is not decided."),
  "C05": ("guard dominance + field read-modify-write shape + growth rules over typed HIR", "5 C05",
-         "index/value validation before unchecked accessors with the structure's own mask; growth writes every new element; conversions copy len/width/mask; no shift by the bit width or assertion on it excludes a legal width (0..=W::BITS); mask-building shifts stay below the word size. Histories as such are not explored."),
+         "index/value validation before unchecked accessors with the structure's own mask; growth writes every new element; conversions copy len/width/mask; no shift by the bit width or assertion on it excludes a legal width (0..=W::BITS); mask-building shifts stay below the word size.; a word is appended to the backend only where the contents reach its end, and the backend length is subtracted only where known not larger; an nth override gives up only when next() would; equality and Hash look at the same bits (no derived Hash next to the masking PartialEq); masks and bounds from a literal shifted by a variable amount are computed in the type they are used in. Histories as such are not explored."),
  "C06": ("guard dominance + reader-mask rules over typed HIR", "5 C06",
-         "checked accessors, iterator bounds, last-word masks in count/eq, push clears the target bit; every access splits one position into word index and in-word offset; equality and counting never consult the number of backend words; extend advances the length with every element. Histories as such are not explored."),
+         "checked accessors, iterator bounds, last-word masks in count/eq, push clears the target bit; every access splits one position into word index and in-word offset; equality and counting never consult the number of backend words; extend advances the length with every element.; the bit iterators keep their cursor within 0..=len in every method that moves it; the word at the end of the contents is rewritten under the mask of the length residual only where that residual is non-zero. Histories as such are not explored."),
  "C13": ("atomic RMW discipline (load/store/CAS classification by receiver kind and data flow) + field-confinement law", "5 C13",
          "shared words are modified only by single fetch_* or by compare_exchange loops that refresh the expected value and recompute the new word from it; no load->store through &self; every word update is confined to the element's bits and agrees with the non-atomic writer; loads and failed-CAS orderings are derived through load_order, never the caller's raw ordering; partial last words of bulk operations are updated by one fetch_*; the concurrent Elias-Fano builder writes through these setters with the sequential split. Memory-order effects other than atomicity are not modelled."),
  "C14": ("storage-tail discipline: backend accesses classified as full-word slice / masked last word / element-addressed; field-confinement law", "5 C14",
@@ -24,27 +24,27 @@ CLAIMS = {
  "C07": ("typestate/ordering of the sharding calls, build/query edge agreement, result discipline over the structured HIR", "5 C07",
          "try_seed sets up the shards from the actual key count, unconditionally, before the store is split, and every geometry consumer sees that state; the backend has num_vertices*num_shards cells; the builder addresses chunks through local_edge and queries through edge; assignment XORs the other two cells; errors and rewinds are never dropped; no size cap asserted on shards before the balance test; the fuse logic decides its regime with the same test when sharding and when setting up graphs; slice keys are hashed over all their bytes; BitFieldVec backends are allocated with the padding word the unaligned queries need; every solver worker drains the channel. Solvability and the peelers are not decided."),
  "C08": ("build/query hash agreement and prefill-before-solve ordering over the structured HIR", "5 C08",
-         "stored value and membership test apply the same mask/mix/edge-hash to the local signature; every membership entry point goes through contains_by_sig with the function's seed; random prefill precedes solving for filters only; silent dedup only for filters. The false-positive rate is statistical and not decided."),
+         "stored value and membership test apply the same mask/mix/edge-hash to the local signature; every membership entry point goes through contains_by_sig with the function's seed; random prefill precedes solving for filters only; silent dedup only for filters. ToSig of the integer key types hashes the whole key (no narrowing of the key before hashing); the store is split by shard_high_bits and shard() takes those bits. The false-positive rate is statistical and not decided."),
  "C17": ("error-discipline and must-pass-through flow rules over the structured HIR", "5 C17",
-         "every Result of lenders, store and rewinds in build_loop/try_seed is propagated; fatal errors are returned unchanged; duplicate retries are bounded by counters; both lenders are rewound on every path to the next attempt (no continue); par_solve returns Ok only when no worker reported an error; Results reaching a sink are tabled one by one and none is replaced by a default; the duplicate scan directly follows an unconditional full sort. Termination of the probabilistic retry is not decided."),
+         "every Result of lenders, store and rewinds in build_loop/try_seed is propagated; fatal errors are returned unchanged; duplicate retries are bounded by counters; both lenders are rewound on every path to the next attempt (no continue); par_solve returns Ok only when no worker reported an error; Results reaching a sink are tabled one by one and none is replaced by a default; the duplicate scan directly follows an unconditional full sort. RadixKey levels of the signature/value pairs read distinct bytes, eight per signature word (the sort behind duplicate detection orders by the whole signature); the number of solver threads is at least one. Termination of the probabilistic retry is not decided."),
  "C20": ("must-pass-through flow rule (seek before Ok) and structural rules for the line reader", "5 C20",
          "rewind() of every Seek-based lender seeks to the start on every Ok path and rebuilds its decoder afterwards; no Ok is returned before the seek; FromIntoIterator restarts from a pristine clone; the shared reader strips exactly LF then CR, maps EOF/errors, and all line lenders use it; Take::rewind is a known finding."),
  "C16": ("symbolic evaluation of the ShardEdge methods and edge helpers + segment-domain argument + bit-slice agreement", "5 C16",
-         "for every impl of ShardEdge: edge(sig) equals local_edge(local_sig(sig)) plus shard(sig)*num_vertices(); the local vertices lie in three consecutive segment windows of the (l+2)*2^s (or 3*seg) cells, hence are distinct and in range; sort_key < num_sort_keys; shard() and Sig::high_bits take the same top bits; set_up_graphs asserts the Vertex bound. The float formulas for s and l are not decided."),
+         "for every impl of ShardEdge: edge(sig) equals local_edge(local_sig(sig)) plus shard(sig)*num_vertices(); the local vertices lie in three consecutive segment windows of the (l+2)*2^s (or 3*seg) cells, hence are distinct and in range; sort_key < num_sort_keys; shard() and Sig::high_bits take the same top bits; set_up_graphs asserts the Vertex bound. The asserted Vertex bound is on num_vertices() itself; the builder takes vertices from local_edge only. The float formulas for s and l are not decided."),
  "C10": ("clamp/partition/flow rules on copy, writer-reader agreement on chunk views, unit rule on unaligned reads, seq/par sibling skeletons", "5 C10",
-         "copy clamps by both vectors and shifts every source word by the difference of the bit offsets in the misaligned branches; try_chunks_mut slices exactly ceil(len*w/BITS) words into ceil(chunk*w/BITS)-word views of min(chunk, remaining) elements; the unaligned read uses bit/8 and bit%8; sequential and parallel fill/flip/reset/count agree; loops are bounded by the logical length; apply_in_place_unchecked touches the backend only below the word count, keeps the tail bits of the last word, and still calls f len times for width 0; every mask-building shift has an amount provably below the word size. Bit-exact equality of the fast paths is not decided."),
+         "copy clamps by both vectors and shifts every source word by the difference of the bit offsets in the misaligned branches; try_chunks_mut slices exactly ceil(len*w/BITS) words into ceil(chunk*w/BITS)-word views of min(chunk, remaining) elements; the unaligned read uses bit/8 and bit%8; sequential and parallel fill/flip/reset/count agree; loops are bounded by the logical length; apply_in_place_unchecked touches the backend only below the word count, keeps the tail bits of the last word, and still calls f len times for width 0; every mask-building shift has an amount provably below the word size. Every exit of apply_in_place_unchecked other than for an empty vector has applied f in a loop; copy writes whole words only strictly between two words its branch updates under a mask. Bit-exact equality of the fast paths is not decided."),
  "C11": ("constant evaluation + compiler type layouts + documented-formula families + interval sampling of the expansion factor", "5 C11",
-         "bytes of counters per block (from rustc's layouts) over the block size equal the documented overheads; Select9 inventory sizes; Elias-Fano l and high/low sizes follow the documented formula on integers; functions size l from ceil(c*max shard) with l >= 1 and c within 1.23 / 1.135 (known finding for the unsharded logic); packed vectors allocate ceil(len*w/BITS) words and grow to a size computed from the new logical length only; the Elias-Fano sizes evaluated on a grid of (n, u) (n = 0 included) stay within n(2 + lg(u/n)) plus three words; expansion factor times the shard-balance tolerance within the bound (known finding: 1.125 x 1.01). mem_size itself and rounding for tiny inputs are not decided."),
+         "bytes of counters per block (from rustc's layouts) over the block size equal the documented overheads; Select9 inventory sizes; Elias-Fano l and high/low sizes follow the documented formula on integers; functions size l from ceil(c*max shard) with l >= 1 and c within 1.23 / 1.135 (known finding for the unsharded logic); packed vectors allocate ceil(len*w/BITS) words and grow to a size computed from the new logical length only; the Elias-Fano sizes evaluated on a grid of (n, u) (n = 0 included) stay within n(2 + lg(u/n)) plus three words; expansion factor times the shard-balance tolerance within the bound (known finding: 1.125 x 1.01). The cell width of a function is the bit length of its largest value (evaluated); cells per key of the fuse geometry evaluated for graphs of 10^6 to 3*10^8 keys; with_capacity reserves without creating words. mem_size itself and rounding for tiny inputs are not decided."),
  "C09": ("writer/reader table agreement for the VByte code, block-protocol agreement between builder and decoders, iterator start protocol", "5 C09",
-         "encode_int/decode_int agree per code length on threshold, offset, prefix, mask and byte positions (thresholds = cumulative 128^k); builder and the three decoders use the same block predicate, NUL termination and truncate-by-rear-length; the in-block scan is clamped to the strings present; is_sorted is cleared exactly on a descent (length tie-break included) and index_of dispatches on it; lenders starting at len are exhausted; the order of two strings is decided on single bytes, byte slices, lengths or big-endian loads only. Byte-string comparison routines are otherwise not decided on all inputs."),
+         "encode_int/decode_int agree per code length on threshold, offset, prefix, mask and byte positions (thresholds = cumulative 128^k); builder and the three decoders use the same block predicate, NUL termination and truncate-by-rear-length; the in-block scan is clamped to the strings present; is_sorted is cleared exactly on a descent (length tie-break included) and index_of dispatches on it; lenders starting at len are exhausted; the order of two strings is decided on single bytes, byte slices, lengths or big-endian loads only. Every path into the in-block scan of index_of has excluded equality with the block head. Byte-string comparison routines are otherwise not decided on all inputs."),
  "C18": ("sibling agreement (online/offline store, file/memory iterator) and formula rules over the typed HIR", "5 C18",
          "both try_push count the pair once per table using the high bits with the matching mask; both into_shard_store aggregate sizes over chunks of 2^(max - shard bits) under the asserted bound; both shard iterators aggregate/split by the same powers of two, route by the high bits minus the bucket's base, advance both cursors and destroy buckets only when not borrowed; regime-sensitive (more shards than buckets / fewer) formulas checked separately; shard() and Sig::high_bits take the same bits. Multiset preservation as such is not decided."),
  "C12": ("unsafe-site census with guard dominance and a table of construction invariants", "5 C12",
          "every unsafe call in a safe function is discharged by dominating facts or rests on a tabled construction invariant; unchecked-precondition functions are unsafe fn; iterator start protocol; universe guard; size products of caller-supplied lengths are checked multiplications; no reinterpretation of storage assumes more alignment than the element type gives. The construction invariants themselves are assumptions."),
  "C19": ("control/error-discipline rules on the solvers and a term-level check of the sorted-merge XOR (typed HIR)", "5 C19",
-         "PARTIAL. Decided: echelon_form tests every pivot row non-empty, turns an emptied row with non-zero constant into an error and leaves the inner loop on an identity row before it is indexed again; gaussian_elimination propagates that error and back-substitutes in reverse over non-identity rows with c ^ eval(vars); lazy_gaussian_elimination classifies fully eliminated rows (unsolvable -> error, identity -> skipped, else dense), propagates the dense error and back-substitutes each pivot from its own row; Modulo2Equation::add is the sorted symmetric difference (advance by l<=r, l>=r, output by their XOR, both tails copied, constants XORed); every explicit error return is guarded by is_unsolvable() of a row or is the tabled input check; an identity row continues the reduction (never ends it); no count is narrowed by a cast. NOT decided: that the returned assignment satisfies every equation and that an error is returned only for unsolvable systems (the weight/priority bookkeeping of the lazy phase is run-time state)."),
+         "PARTIAL. Decided: echelon_form tests every pivot row non-empty, turns an emptied row with non-zero constant into an error and leaves the inner loop on an identity row before it is indexed again; gaussian_elimination propagates that error and back-substitutes in reverse over non-identity rows with c ^ eval(vars); lazy_gaussian_elimination classifies fully eliminated rows (unsolvable -> error, identity -> skipped, else dense), propagates the dense error and back-substitutes each pivot from its own row; Modulo2Equation::add is the sorted symmetric difference (advance by l<=r, l>=r, output by their XOR, both tails copied, constants XORed); every explicit error return is guarded by is_unsolvable() of a row or is the tabled input check; an identity row continues the reduction (never ends it); no count is narrowed by a cast. echelon_form visits every row (outer loop to len - 1, inner to len) and every solution vector has num_vars entries. NOT decided: that the returned assignment satisfies every equation and that an error is returned only for unsolvable systems (the weight/priority bookkeeping of the lazy phase is run-time state)."),
  "C15": ("type-level witnesses (a crate that is only type-checked against the tree) + impl-generality rule over the resolved impls", "5 C15",
-         "PARTIAL. Decided: for every serializable structure (bit vectors, bit-field vectors, rank/select structures and their compositions, the Elias-Fano aliases, rear-coded lists, functions and filters with each backend / signature / shard-edge logic) both the type itself (full-copy deserialization) and its zero-copy image DeserType<'_> (deserialize_eps, mmap) implement the query traits and have the query methods of the original; every query-trait impl of a serializable structure is generic in all storage parameters; the optional mwhc logics are witnessed too; no query path reinterprets storage assuming more alignment than the element type gives (loaded buffers are only that aligned). NOT decided: that the bytes read back equal the values written (epserde's generated code and run-time data) -- answering *identically* is not decided, only that every loaded instance can be asked."),
+         "PARTIAL. Decided: for every serializable structure (bit vectors, bit-field vectors, rank/select structures and their compositions, the Elias-Fano aliases, rear-coded lists, functions and filters with each backend / signature / shard-edge logic) both the type itself (full-copy deserialization) and its zero-copy image DeserType<'_> (deserialize_eps, mmap) implement the query traits and have the query methods of the original; every query-trait impl of a serializable structure is generic in all storage parameters; the optional mwhc logics are witnessed too; no query path reinterprets storage assuming more alignment than the element type gives (loaded buffers are only that aligned). no serializable structure is aligned beyond what every loader provides (64 bytes). NOT decided: that the bytes read back equal the values written (epserde's generated code and run-time data) -- answering *identically* is not decided, only that every loaded instance can be asked."),
 }
 
 NA = {
